@@ -141,8 +141,13 @@ func gen(c *lib.Ctx) {
 		genNTSDest(c, "c20ntsdest")
 		genWrapCtx(c, "c05wrapctx-ip", false)
 		genWrapCtx(c, "c05wrapctx-scion", true)
+		genNTSRetry(c, "c05ntsretry-ip", false)
+		genNTSRetry(c, "c05ntsretry-scion", true)
 		genNoStamp(c, "c05nostamp-ip", false)
 		genNoStamp(c, "c05nostamp-scion", true)
+	case "retry": // development
+		genNTSRetry(c, "c05ntsretry-ip", false)
+		genNTSRetry(c, "c05ntsretry-scion", true)
 	case "flow": // development: the streams of gen_flow.go only
 		genNoStamp(c, "c03nostamp-ip", false)
 		genNoStamp(c, "c03nostamp-scion", true)
